@@ -214,6 +214,8 @@ class CliT:
         kw = dict(client_kwargs)
         kw.setdefault('logger', QUIET)
         kw.setdefault('handle_sigint', False)
+        kw.pop('plain_handlers', None)
+        legacy = kw.pop('legacy_disconnect', False)
         self.c = engineio.Client(http_session=FakeSession(peer, self.wire),
                                  **kw)
         self.on_connect = None
@@ -221,7 +223,11 @@ class CliT:
         self.on_disconnect = None
         self.c.on('connect', self._connect)
         self.c.on('message', self._message)
-        self.c.on('disconnect', self._disconnect)
+        if legacy:
+            # the legacy handler form without a reason argument
+            self.c.on('disconnect', lambda: self._disconnect('?legacy'))
+        else:
+            self.c.on('disconnect', self._disconnect)
         self.clk = 0
         # boundary spy on disconnect(): when it was entered, in which state,
         # when it returned (evidence for the race classification of C08)
@@ -449,6 +455,8 @@ class CliA:
         kw = dict(client_kwargs)
         kw.setdefault('logger', QUIET)
         kw.setdefault('handle_sigint', False)
+        plain = kw.pop('plain_handlers', False)
+        legacy = kw.pop('legacy_disconnect', False)
         self.c = engineio.AsyncClient(
             http_session=FakeAioSession(peer, self.wire), **kw)
         self.on_connect = None
@@ -469,9 +477,30 @@ class CliA:
             self._log('disconnect', reason=reason)
             if self.on_disconnect:
                 await self.on_disconnect(reason)
-        self.c.on('connect', hc)
-        self.c.on('message', hm)
-        self.c.on('disconnect', hd)
+        async def hd_legacy():
+            await hd('?legacy')
+
+        # plain-function handlers on the asyncio client (no hooks: a plain
+        # function cannot await the client's coroutine API)
+        def phc():
+            self._log('connect', sid=self.c.sid, transport=self.c.transport())
+
+        def phm(data):
+            self._log('message', data=data)
+
+        def phd(reason):
+            self._log('disconnect', reason=reason)
+
+        def phd_legacy():
+            self._log('disconnect', reason='?legacy')
+        if plain:
+            self.c.on('connect', phc)
+            self.c.on('message', phm)
+            self.c.on('disconnect', phd_legacy if legacy else phd)
+        else:
+            self.c.on('connect', hc)
+            self.c.on('message', hm)
+            self.c.on('disconnect', hd_legacy if legacy else hd)
         self.clk = 0
 
     def _log(self, ev, **kw):
